@@ -24,7 +24,8 @@ SKELETON_TARGETS = {"Gen.C15.skeleton_E15b (inline_callbacks = inlineCallbacks .
 GENERATED_OBLIGATIONS = ["Generated.genWrapper = Gen.C15.assumedWrapper (E15: shape of the wrapper loop; Gen.keepsReturn follows its `stop` field)"]
 RULE = ("bodies: random well-bracketed instruction lists (enter/exit of own actions spanning yields, log=observe current_action, "
         "yield v / yield last-received, try/catch(Thrown | bare), raise (application exceptions, GeneratorExit, KeyboardInterrupt / SystemExit / CancelledError), return v, resume of a higher-numbered generator with send/throw/close); "
-        "values (sent, yielded, returned) come from a pool compared by identity: None, small ints, a tuple, exception instances "
+        "thrown exception instances have been raised and caught before (they carry a traceback and a __cause__; the body records whether "
+        "the innermost frames of the traceback it sees are still the original ones); values (sent, yielded, returned) come from a pool compared by identity: None, small ints, a tuple, exception instances "
         "(also BaseException ones and the object used by throw) and an exception class used as plain data; "
         "1-4 generators, the script interleaves resumptions (send None/value, throw, close) with the driver entering/leaving up to 3 "
         "surrounding actions; a quarter of the resumptions is made from another contextvars.Context than the driver's own "
@@ -243,6 +244,38 @@ def do_resume(env, g, inp):
         return {"x": exc_name(env, e)}, e
 
 
+ORIGIN = ["make_raised", "_origin"]
+
+
+def _origin(exc, cause):
+    try:
+        raise cause
+    except BaseException:  # noqa
+        raise exc from cause          # __cause__ and __context__ are both `cause`
+
+
+def make_raised(exc, cause):
+    try:
+        _origin(exc, cause)
+    except BaseException as e:  # noqa
+        return e
+
+
+def note_traceback(env, i, e):
+    """An exception of the pool arrived at a `yield` of body i.  What is recorded (and compared between the undecorated and
+    the decorated run): whether the INNERMOST frames of its traceback, as the body sees it, are still the frames where it was
+    originally raised (make_raised -> _origin; frames added at the outer end on the way in - the body's own, the wrapper's -
+    are not compared), and whether __cause__ / __context__ are still the original object."""
+    import traceback
+
+    for n, x in enumerate(env.E):
+        if x is e:
+            names = [f.name for f in traceback.extract_tb(e.__traceback__)]
+            env.tbs.append(dict(gen=i, exc=n, origin_frames_innermost=names[-len(ORIGIN):] == ORIGIN,
+                                cause=e.__cause__ is env.CAUSE and e.__context__ is env.CAUSE))
+            return
+
+
 def resume_via(env, g, inp, via):
     """resume g from the driver's own Context (via None), from a copy of it (`copy_context().run(g.send, v)`),
     from an empty one (`Context().run(...)`) or from another thread"""
@@ -342,6 +375,7 @@ def body(env, i, code):
                 st["last"] = yield v
             except BaseException as e:  # noqa
                 mode = ("prop", e, 0)
+                note_traceback(env, i, e)
         elif op == "ret":
             return to_val(env, ins[1])
         elif op == "catch":
@@ -365,8 +399,13 @@ def _run_real(case, wrapped):
 
     env = Env()
     import asyncio
-    env.E = [Thrown(n) for n in range(4)] + [GeneratorExit("thrown"), GeneratorExit, KeyboardInterrupt("k"), SystemExit(3),
-                                             asyncio.CancelledError("c")]
+    # every exception INSTANCE has really been raised and caught before it is thrown into a generator: it carries a
+    # traceback (frames make_raised -> _origin) and a __cause__
+    env.CAUSE = KeyError("cause")
+    env.E = [make_raised(Thrown(n), env.CAUSE) for n in range(4)] + [make_raised(GeneratorExit("thrown"), env.CAUSE), GeneratorExit,
+            make_raised(KeyboardInterrupt("k"), env.CAUSE), make_raised(SystemExit(3), env.CAUSE),
+            make_raised(asyncio.CancelledError("c"), env.CAUSE)]
+    env.tbs = []
     env.V = make_pool(env)
     env.ids, env.keep, env.obs, env.events, env.nested = {}, [], [], [], []
     env.pending_base = None
@@ -411,7 +450,7 @@ def _run_real(case, wrapped):
                 stack.pop().__exit__(None, None, None)
             except Exception:  # noqa
                 pass
-    res = dict(steps=steps, obs=list(env.obs), events=list(env.events), nested=list(env.nested))
+    res = dict(steps=steps, obs=list(env.obs), events=list(env.events), nested=list(env.nested), tbs=list(env.tbs))
     # finish every generator now (a body may ignore GeneratorExit a few times), so that nothing is
     # left to the garbage collector; not part of the observation
     for g, code in zip(env.gens, case["gens"]):
@@ -461,6 +500,16 @@ def oracle(ctx, case, plain, wrapped):
         ctx.violation("I/O trace of the decorated generator differs from the plain one at event %d: plain %s, wrapped %s" % (k, p, w),
                       c, key={"component": comp}, extra=dict(event=k, plain=p, wrapped=w))
         break
+    # (1b) a thrown exception that already carries a traceback arrives with it: innermost frames and __cause__ as in the plain run
+    tp, tw = plain.get("tbs", []), wrapped.get("tbs", [])
+    for k in range(max(len(tp), len(tw))):
+        a = tp[k] if k < len(tp) else None
+        b = tw[k] if k < len(tw) else None
+        if a != b or (b is not None and not (b["origin_frames_innermost"] and b["cause"])):
+            ok = False
+            ctx.violation("exception %s thrown into generator %s: traceback / cause as seen by the body: plain %s, decorated %s" %
+                          ((b or a)["exc"], (b or a)["gen"], a, b), c, key={"component": "traceback"})
+            break
     # (2) resuming never changes the resumer's current action (wrapped run)
     for k, s in enumerate(wrapped["steps"]):
         if s["out"] is not None and not s["same"]:
@@ -661,6 +710,9 @@ ALPHABET = [["enter", 1], ["exit"], ["resume", 0, ["send", None]], ["resume", 0,
 # minimal / hand-picked cases, run first (so that a replay file shows the smallest failing input)
 CORPUS = [
     dict(gens=[[["ret", 7]]], script=[["resume", 0, ["send", None]]], family="corpus"),
+    # an exception that was raised and caught before (it has a traceback and a cause) is thrown in and caught by the body
+    dict(gens=[[["try"], ["yield", 1], ["catch", False], ["yield", 2], ["endcatch"]]],
+         script=[["resume", 0, ["send", None]], ["resume", 0, ["throw", 1]]], family="corpus"),
     # an action spans a yield and the next resumption comes from another Context / another thread
     dict(gens=[[["enter", 11], ["log", 1], ["yield", 1], ["log", 2], ["exit"], ["log", 3], ["yield", 2]]],
          script=[["enter", 1], ["resume", 0, ["send", None]], ["resume", 0, ["send", None], "copy"]], family="corpus"),
